@@ -6,6 +6,7 @@ from . import common
 def generic(ctx, obj):
     print(json_dump(obj))
     h, case = obj.get("harness"), obj.get("case")
+    if obj.get("driver"): ctx.driver_exe = obj["driver"]
     if not h or not case:
         print("replay: nothing executable recorded (see no_longer_checks)"); return 1
     exe, out = ctx.build_harness(h)
